@@ -149,6 +149,10 @@ func checkC09(c *Ctx) {
 	if f := p.Func("ecc/p384", "curve", "IsOnCurve"); f != nil {
 		c.guard(p, "C09.membership", "IsOnCurve accepts only when y^2 = x^3 - 3x + b holds", f, GuardSpec{BinAssumes: []BinAssume{
 			binDesc(f, "y^2 == x^3 - 3x + b", `local:ecc/p384\.fp384 == local:ecc/p384\.fp384`, latFalse)}})
+		// as crypto/elliptic (the portable back-end) does: a coordinate that is negative or not below p is not
+		// the coordinate of a point - it must not be reduced into one
+		c.guard(p, "C09.noreduce", "a coordinate not below the field modulus is refused (not reduced)", f, GuardSpec{Assumes: []Assume{calleeAssume(latInt(1), -1, "(*math/big.Int).Cmp")}})
+		c.guard(p, "C09.noreduce", "a coordinate equal to the field modulus is refused (not reduced)", f, GuardSpec{Assumes: []Assume{calleeAssume(latInt(0), -1, "(*math/big.Int).Cmp")}})
 	} else {
 		c.ok("C09.membership", "ecc/p384 optimised IsOnCurve", "not part of this build configuration", "")
 	}
